@@ -16,6 +16,47 @@ open Lean (Json)
 
 structure State where
   file : Option File := none
+  /-- the grammar translated from parser.rs on this run (`grammar` request), used by `parse` when set -/
+  grammar : Option Peg.Grammar := none
+
+partial def pegExpr (j : Json) : Except String Peg.Expr := do
+  let t ← J.str j "t"
+  let list (k : String) : Except String (List Peg.Expr) := do
+    let a ← J.arr j k
+    a.mapM pegExpr
+  let sub : Except String Peg.Expr := do pegExpr (← j.getObjVal? "e")
+  let chr (k : String) : Except String Char := do
+    match (← J.str j k).toList with
+    | [c] => pure c
+    | _ => throw "range bound is not one character"
+  let rec nest (f : Peg.Expr → Peg.Expr → Peg.Expr) (e0 : Peg.Expr) : List Peg.Expr → Peg.Expr
+    | [] => e0
+    | [e] => e
+    | e :: es => f e (nest f e0 es)
+  match t with
+  | "str" => pure (.str (← J.str j "v"))
+  | "range" => pure (.range (← chr "lo") (← chr "hi"))
+  | "any" => pure .any
+  | "soi" => pure .soi
+  | "eoi" => pure .eoi
+  | "seq" => pure (nest .seq (.str "") (← list "a"))
+  | "choice" => pure (nest .choice (.notP (.str "")) (← list "a"))
+  | "opt" => pure (.opt (← sub))
+  | "star" => pure (.star (← sub))
+  | "plus" => pure (.plus (← sub))
+  | "not" => pure (.notP (← sub))
+  | "and" => pure (.andP (← sub))
+  | "rule" => pure (.rule (← J.str j "n"))
+  | other => throw s!"unknown grammar expression {other}"
+
+def pegRule (j : Json) : Except String Peg.Rule := do
+  let kind ← match (← J.str j "kind") with
+    | "normal" => pure Peg.Kind.normal
+    | "silent" => pure Peg.Kind.silent
+    | "atomic" => pure Peg.Kind.atomic
+    | "compound" => pure Peg.Kind.compound
+    | k => throw s!"unknown rule kind {k}"
+  pure { name := ← J.str j "name", kind := kind, body := ← pegExpr (← j.getObjVal? "body") }
 
 def patJson : Enum.Pat → Json
   | .lit v => Json.mkObj [("lit", Json.num v)]
@@ -229,9 +270,18 @@ def handle (st : State) (req : Json) : Except String (State × Json) := do
     let one (t : Backend.Target) : Json := Json.arr ((Backend.pre t f).map fun r => Json.str r.name).toArray
     pure (st, Json.mkObj [("status", "ok"), ("pre", Json.mkObj [("json", one .json), ("rust", one .rust),
       ("python", one .python), ("cxx", one .cxx), ("java", one .java)])])
+  | "grammar" =>
+    -- {"op":"grammar","rules":[..],"use":bool}: the grammar translated from parser.rs on this run, compared rule by
+    -- rule with the transcribed `Syntax.grammar` the theorems and the tree-to-AST conversion were written against
+    let rules ← (← J.arr req "rules").mapM pegRule
+    let diff := Peg.grammarDiff rules Syntax.grammar
+    let use := match req.getObjVal? "use" with | .ok (.bool b) => b | _ => false
+    pure ({ st with grammar := if use then some rules else st.grammar },
+      Json.mkObj [("status", "ok"), ("equal", Json.bool diff.isEmpty), ("rules", Json.num rules.length),
+        ("transcribed_rules", Json.num Syntax.grammar.length), ("diff", Json.arr (diff.map Json.str).toArray)])
   | "parse" =>
     let text ← J.str req "text"
-    match Syntax.parse text.toUTF8.data with
+    match Syntax.parseWith (st.grammar.getD Syntax.grammar) text.toUTF8.data with
     | .ok p =>
       pure (st, Json.mkObj [("status", "ok"), ("declarations", TJ.decls p.file),
         ("endianness", Json.mkObj [("value", Json.str (match p.file.endian with | .little => "little_endian" | .big => "big_endian")),
